@@ -503,8 +503,8 @@ class Machine:
     def call(self, e, env):
         fn = e.get("fn") or ""
         args = [self.ev(a, env) for a in e.get("args", [])]
-        if e.get("res") == "ctor":
-            last = fn.split("::")[-1]
+        if e.get("res") in ("ctor", "selfctor"):
+            last = fn.split("::")[-1] if e.get("res") == "ctor" else "Self"
             if last in ("Some", "Ok", "Err"):
                 return (last, args[0])
             return ("ctor", last, args)
